@@ -114,9 +114,12 @@ def adaptation_search(ctx):
     bad = 0
     grid = [(n_warm, st) for n_warm in ([0, 1, 2, 3, 5, 7, 9, 10, 13, 20, 40] if not ctx.thorough else list(range(0, 60)))
             for st in (None, (25, 75, 50, 2), (3, 2, 0, 2), (1, 0, 0, 1), (2, 0, 3, 1.5))]
+    import contextlib
+    import io
     for n_warm, st in grid:
         for n_chain in (1, 2):
-            for with_metric in (False, True):
+            for with_metric, disp in ((False, False), (True, False), (True, True)) if st is not None else ((False, False), (True, False)):
+                # disp: the default display_progress=True hands the stage loop a label -> stage mapping instead of a list (output discarded here)
                 integrator = mici.integrators.LeapfrogIntegrator(system, step_size=0.123)
                 rng = np.random.default_rng(int(ctx.rng.integers(0, 2 ** 31)))
                 sampler = mici.samplers.StaticMetropolisHMC(system, integrator, rng, n_step=2)
@@ -125,15 +128,16 @@ def adaptation_search(ctx):
                 stager = None if st is None else mici.stagers.WindowedWarmUpStager(*st)
                 metric0 = system.metric
                 try:
-                    out = sampler.sample_chains(n_warm, 6, [rng.standard_normal(2) for _ in range(n_chain)], adapters=adapters,
-                                                stager=stager, display_progress=False, trace_warm_up=False)
+                    with contextlib.redirect_stdout(io.StringIO()), contextlib.redirect_stderr(io.StringIO()):
+                        out = sampler.sample_chains(n_warm, 6, [rng.standard_normal(2) for _ in range(n_chain)], adapters=adapters,
+                                                    stager=stager, display_progress=disp, trace_warm_up=False)
                 except mici.errors.AdaptationError:
                     ctx.count("search:adaptation_error(window too short for a variance estimate)")
                     continue
                 finally:
                     metric_end = system.metric
                     system.metric = metric0
-                ctx.case(("adapt", n_warm, st, n_chain, with_metric))
+                ctx.case(("adapt", n_warm, st, n_chain, with_metric, disp))
                 ctx.count("search:adaptation_runs")
                 ss = [np.asarray(a) for a in out.statistics["step_size"]]
                 const = all(np.all(a == a[0]) for a in ss) and len({float(a[0]) for a in ss}) == 1
@@ -150,7 +154,7 @@ def adaptation_search(ctx):
                 used = float(ss[0][0])
                 if not const or abs(used - want) > 1e-15 * max(1, abs(want)):
                     bad += 1
-                    ctx.fail("main_stage_params", f"n_warm_up_iter={n_warm}, stager={st}, chains={n_chain}, metric adapter={with_metric}: main stage ran with "
+                    ctx.fail("main_stage_params", f"n_warm_up_iter={n_warm}, stager={st}, chains={n_chain}, metric adapter={with_metric}, display_progress={disp}: main stage ran with "
                              f"step size {used!r} (constant={const}); last value finalized by a warm-up stage with >=1 update is {want!r}",
                              {"n_warm": n_warm, "stager": st, "n_chain": n_chain, "with_metric": with_metric, "used": used, "expected": want,
                               "adapter_log": [list(map(repr, e)) for e in LogDA.log][-12:]})
